@@ -42,7 +42,7 @@ struct MiriEnv {
 
 impl Env for MiriEnv {
     fn pre_new(&mut self, _spec: &Spec) {}
-    fn post_new(&mut self, _spec: &Spec) -> u32 {
+    fn post_new(&mut self, _spec: &Spec, _tz: &TimeZone) -> u32 {
         self.sh.next_zone.fetch_add(1, Ordering::Relaxed)
     }
     fn handles(&mut self, _zone: u32, _delta: i32) {}
@@ -88,6 +88,9 @@ impl Env for MiriEnv {
     }
     fn swap_shared(&mut self, slot: Option<Slot>) -> Option<Slot> {
         std::mem::replace(&mut *self.sh.shared.lock().unwrap(), slot)
+    }
+    fn checkpoint(&mut self, _what: &'static str) -> bool {
+        true
     }
     fn no_alloc_begin(&mut self) {}
     fn no_alloc_end(&mut self, _what: &'static str) {}
